@@ -222,7 +222,8 @@ CHECKS["C13"] = {
     "level_text": "Every string of length <= 7 (quick, 3.9e7) / <= 8 (thorough, 4.7e8) over {a : / @ ? # [ ] . 0 9 SP} is passed to htp_parse_uri() and the port handling of "
                   "htp_normalize_parsed_uri(); re-joining the reported components with exactly their delimiters must reproduce the target minus trailing spaces (which implies order, "
                   "contiguity and non-overlap), a target starting with '/' gets no scheme/authority, and port_number is the decimal value iff the port text is all digits in 1..65535, "
-                  "otherwise -1 with the invalid-host indicator. Port literal layer: 22 values around 2^16, 2^31, 2^32, 2^63, 2^64 and values congruent to a valid port modulo "
+                  "otherwise -1 with the invalid-host indicator. Authority-form layer: every string of length <= 6 over {a B : . 9 SP HT / [ ]} through htp_parse_uri_hostport() (the CONNECT path): host [\":\" port] must re-join to the target, "
+                  "differences are classified (letter case only / white space only / other); targets the library flags as invalid hosts are not judged. Port literal layer: 22 values around 2^16, 2^31, 2^32, 2^63, 2^64 and values congruent to a valid port modulo "
                   "2^32 / 2^64 x leading zeros / blanks / sign x 4 target forms. Exhaustive for the alphabet and length; says nothing about other bytes or longer targets.",
     "level_note": "No second parser is trusted: the oracle only re-joins what the library reported. Blanks around the port digits are ignored as the library documents. A binding slice through "
                   "the full request path is provided by C02 (absolute-URI targets) rather than here.",
